@@ -33,7 +33,7 @@ pub static INFO: PropInfo = PropInfo {
 };
 
 pub fn run(ctx: &Ctx, out: &mut Outcome) {
-    super::run_loop(ctx, out, 2400, 150_000, 13, one_run);
+    super::run_loop(ctx, out, 14_000, 300_000, 13, one_run);
 }
 
 const MAGS: &[u64] = &[0, 63, 64, 16383, 16384, (1 << 30) - 1, 1 << 30, (1 << 62) - 1000];
